@@ -1,10 +1,16 @@
 /-
-  Lemmas for C03 / C04 — inversion of the two per-node tree checkers of `Cmr/Tree.lean`.
+  Lemmas for C03 / C04 — inversion of the two per-node tree checkers of `Cmr/Tree.lean`, and the matrix lemma behind the
+  TU certification of series-parallel nodes.
 
-  `checkRecompose` and `checkFlags` are long `do` blocks in `Except`.  They are cut here into named pieces whose text is
-  copied verbatim from `Cmr/Tree.lean` (so that `checkRecompose_eq` / `checkFlags_eq` hold by `rfl`), and every piece gets
-  an `…_ok_iff` lemma stating exactly when it accepts.  This file is generated text plus hand-written proofs; nothing
-  here is executable model code.
+  * `Cmr.Ex.*`: small facts about `Except` (`bind_eq_ok`, `forM_ok_iff`, `mapM_ok_iff`, `forIn_unit_ok_iff`, …).
+  * `isPerm_iff`.
+  * `checkRecompose` and `checkFlags` are long `do` blocks in `Except`.  They are cut into named pieces whose text is
+    copied verbatim from `Cmr/Tree.lean` (`recompLeaf/SP/Piv/One/Sum`, `recompKids/Fields/Transpose`, `flagsGraph`, …,
+    the latter in continuation-passing form) so that `checkRecompose_eq` and `checkFlags_eq` hold by `rfl`; every piece
+    gets an `…_ok_iff` lemma stating exactly when it accepts, and `checkRecompose_ok_iff` / `checkFlags_ok_iff`
+    (structure `FlagsOk`) put them together.  The pieces are proof devices, not model code.
+  * `tu_of_row`: adding a zero row, a signed unit row or a ± copy of a row to a totally unimodular matrix (Mathlib) keeps
+    it totally unimodular; `mxOn`, `isTU_sub_iff_mxOn`, `lineRem_TU` transport this to the list model.
 -/
 import Cmr.Tree
 import CmrProofs.Lemmas.TUClosure
